@@ -102,7 +102,9 @@ def roundtrip_data(tier, seed):
                 if not (F.close(back.box.vects, s.box.vects, tol * 10) and F.close(back.box.origin, s.box.origin, tol * 10)):
                     msgs.append('cell differs from the written (wrapped) cell')
                 ref.box_set(vects=s.box.vects, origin=s.box.origin)
-                msgs += F.same_system(am, ref, back, tol)
+                lu_ = am.lammps.style.unit(units)
+                pu_ = {'velocity': am.unitconvert.parse(lu_['velocity']), 'charge': am.unitconvert.parse(lu_['charge'])}     # the file holds each property in its own unit
+                msgs += F.same_system(am, ref, back, tol, prop_unit=pu_, float_format=ff)
             except Exception as e:
                 msgs.append('raised %s: %s' % (type(e).__name__, e))
             if msgs:
@@ -158,7 +160,8 @@ def roundtrip_dump_table(tier, seed):
             back = am.load('atom_dump', src, symbols=s.symbols, lammps_units=units, prop_info=info)
             L = am.unitconvert.parse(am.lammps.style.unit(units)['length'])
             tol = F.ftol(ff, 20.0) * (L if ff.endswith('f') else 1.0)
-            msgs = F.same_system(am, s, back, tol)
+            lu_ = am.lammps.style.unit(units)
+            msgs = F.same_system(am, s, back, tol, prop_unit={'velocity': am.unitconvert.parse(lu_['velocity'])}, float_format=ff)
             # generic table (no cell in the format: the box is passed in)
             ttext, tinfo = s.dump('table', float_format=ff, return_prop_info=True)
             if shuffle and 'a_id' in ttext[:0]:
